@@ -300,7 +300,8 @@ func H_C20_bind_delegation() {
 	res, qerr := qs.AllianceDelegation(e.Ctx, &types.QueryAllianceDelegationRequest{DelegatorAddr: Dels[0].String(), ValidatorAddr: Vals[0].String(), Denom: Denoms[0]})
 	nd.Assert(id+".ok", qerr == nil)
 	if qerr == nil {
-		nd.Assert(id+".balance", dr.Amount == res.Delegation.Balance.Amount.String())
+		amt, ok := math.NewIntFromString(dr.Amount)
+		nd.Assert(id+".balance", ok && amt.Equal(res.Delegation.Balance.Amount))
 	}
 }
 
